@@ -98,6 +98,14 @@ func (r *Report) OutOfBudget() bool {
 	return true
 }
 
+// DeadlineUnix is the wall-clock second at which explorations should stop (0 = no budget).
+func (r *Report) DeadlineUnix() int64 {
+	if r.deadline.IsZero() {
+		return 0
+	}
+	return r.deadline.Unix()
+}
+
 func (r *Report) Cap(what string) {
 	r.mu.Lock()
 	defer r.mu.Unlock()
